@@ -178,19 +178,33 @@ func (fx *fsExplorer) model(in *Interp, site ssa.CallInstruction, name string, a
 	switch name {
 	case "path/filepath.Join":
 		hp := false
+		rooted := false
 		var ks []string
-		for _, e := range sliceArgs(in, args[0], site) {
+		for i, e := range sliceArgs(in, args[0], site) {
 			if hostPath(e) {
 				hp = true
+				if i == 0 {
+					rooted = true // root + something
+				}
 			}
 			ks = append(ks, keyOf(e))
 		}
-		return SymStr{Key: "join(" + strings.Join(ks, ",") + ")", HostPath: hp}, true
+		return SymStr{Key: "join(" + strings.Join(ks, ",") + ")", HostPath: hp, Rooted: rooted}, true
 	case "path/filepath.Rel":
-		return Tuple{[]Val{SymStr{Key: "rel(" + keyOf(args[1]) + ")"}, kNil}}, true
+		// a path that is the root followed by something is made relative
+		// without fail; for any other path (the target of a link, an
+		// absolute form) Rel may fail — its error text quotes both paths —
+		// or climb out with ../ and end in the real location
+		if t, ok := args[1].(SymStr); ok && (t.Rooted || !hostPath(args[0])) {
+			return Tuple{[]Val{SymStr{Key: "rel(" + keyOf(args[1]) + ")"}, kNil}}, true
+		}
+		if in.truth(LazyBool{"fails:rel(" + keyOf(args[1]) + ")"}) {
+			return Tuple{[]Val{kStr(""), in.mkErr(&ErrObj{Kind: "new", Msg: SymStr{Key: "Rel: can't make " + keyOf(args[1]) + " relative to " + keyOf(args[0]), HostPath: true}})}}, true
+		}
+		return Tuple{[]Val{SymStr{Key: "rel(" + keyOf(args[1]) + ")", HostPath: hostPath(args[1])}, kNil}}, true
 	case "path/filepath.ToSlash", "path/filepath.FromSlash", "path.Clean":
 		if s, ok := args[0].(SymStr); ok {
-			return SymStr{Key: s.Key, HostPath: s.HostPath}, true
+			return SymStr{Key: s.Key, HostPath: s.HostPath, Rooted: s.Rooted}, true
 		}
 		return args[0], true
 	case "path.IsAbs":
@@ -362,7 +376,11 @@ func (fx *fsExplorer) walk(in *Interp, site ssa.CallInstruction, args []Val) Val
 	}
 	if o == "dir" && in.truth(LazyBool{"dir-has-member(" + keyOf(root) + ")"}) {
 		hp := hostPath(root)
-		member := SymStr{Key: "member(" + keyOf(root) + ")", HostPath: hp}
+		rooted := false
+		if rs, ok := root.(SymStr); ok {
+			rooted = rs.Rooted
+		}
+		member := SymStr{Key: "member(" + keyOf(root) + ")", HostPath: hp, Rooted: rooted}
 		mk := []string{"file", "dir"}[in.chooseLabeled("member-kind("+keyOf(root)+")", []string{"file", "dir"})]
 		r2 := call(member, Iface{Dyn: types.Typ[types.Invalid], V: Opaque{"fi(" + member.Key + "):" + mk, fiT}}, kNil)
 		if !isNilVal(r2) && !isSkipDir(r2) {
@@ -374,7 +392,7 @@ func (fx *fsExplorer) walk(in *Interp, site ssa.CallInstruction, args []Val) Val
 		// remaining members of its parent)
 		if fx.c.Thorough() {
 			if mk == "dir" && isNilVal(r2) && in.truth(LazyBool{"dir-has-member(" + member.Key + ")"}) {
-				g := SymStr{Key: "member(" + member.Key + ")", HostPath: hp}
+				g := SymStr{Key: "member(" + member.Key + ")", HostPath: hp, Rooted: rooted}
 				r3 := call(g, Iface{Dyn: types.Typ[types.Invalid], V: Opaque{"fi(" + g.Key + "):file", fiT}}, kNil)
 				if !isNilVal(r3) && !isSkipDir(r3) {
 					return r3
@@ -384,7 +402,7 @@ func (fx *fsExplorer) walk(in *Interp, site ssa.CallInstruction, args []Val) Val
 				return kNil
 			}
 			if in.truth(LazyBool{"dir-has-second-member(" + keyOf(root) + ")"}) {
-				m2 := SymStr{Key: "member2(" + keyOf(root) + ")", HostPath: hp}
+				m2 := SymStr{Key: "member2(" + keyOf(root) + ")", HostPath: hp, Rooted: rooted}
 				r4 := call(m2, Iface{Dyn: types.Typ[types.Invalid], V: Opaque{"fi(" + m2.Key + "):file", fiT}}, kNil)
 				if !isNilVal(r4) && !isSkipDir(r4) {
 					return r4
@@ -722,7 +740,6 @@ func c01Refusals(c *Ctx, r *RuleResult, runs []*fsRun) {
 	}
 	r.RequireRole("fault-row", "code-decided-refusal")
 }
-
 
 // truncateRule (C01, C05): every file opened for writing on behalf of PUT or
 // COPY is truncated.
